@@ -117,6 +117,8 @@ def main():
                 fired.setdefault(name, {})[prop] = bool(keys)
     for name, d in sorted(fired.items()):
         silent = sorted(p for p, f in d.items() if not f)
+        if set(ts[name][2]) - set(d):
+            continue        # partial run: not every property expected to report this change was evaluated
         if not any(d.values()):
             bad += 1
             print("MISSED %s (silent: %s)" % (name, " ".join(silent)))
